@@ -2,6 +2,7 @@
 package c01
 
 import (
+	"bytes"
 	"encoding/json"
 	"fmt"
 	"os"
@@ -202,4 +203,47 @@ func kindName(k ref.Kind) string {
 		return "list-entry"
 	}
 	return fmt.Sprint(k)
+}
+
+// TestSoak: the same few small PDUs encoded and decoded 70 000 times in one process (more calls than any
+// 16-bit counter holds, enough to cycle every pool many times): the k-th result equals the first.
+func TestSoak(t *testing.T) {
+	env := rec.Env()
+	n := env.Pick(70000, 300000)
+	i := 0
+	for _, b := range gen.Bindings {
+		i++
+		if !env.Mine(i) || (b.Spec.HasTail() && !env.Thorough()) {
+			continue
+		}
+		v := gen.SeedVals(b, uint64(i)*104729+uint64(env.Seed), 2, 5)
+		c := b.Fill(v)
+		first, err := c.IEncode()
+		if err != nil {
+			continue
+		}
+		for k := 0; k < n; k++ {
+			out, err := c.IEncode()
+			if err != nil || !bytes.Equal(out, first) {
+				rec.Report(t, "roundtrip", vk.Violf(b.Spec.ID()+"/soak/encode-result-drifts", gen.PCase{Vals: ref.ToJ(b.Spec, v), Note: fmt.Sprintf("encode number %d of the same value", k+2)}, "%s: encode number %d of the same value returned %x, %v; the first returned %x", b.Spec.ID(), k+2, clip(out), err, clip(first)))
+				break
+			}
+			if k%16 == 0 {
+				p := b.New()
+				if err := p.IDecode(out); err != nil {
+					rec.Report(t, "roundtrip", vk.Violf(b.Spec.ID()+"/soak/decode-fails", gen.PCase{Vals: ref.ToJ(b.Spec, v), Note: fmt.Sprintf("decode number %d", k/16+1)}, "%s: decode number %d of the same image failed: %v", b.Spec.ID(), k/16+1, err))
+					break
+				}
+			}
+		}
+		rec.EvalN(int64(n))
+		rec.Class("soak")
+	}
+}
+
+func clip(b []byte) []byte {
+	if len(b) > 40 {
+		return b[:40]
+	}
+	return b
 }
